@@ -196,6 +196,11 @@ impl RunOut {
             self.violations.push(Violation { signature, detail: detail.into() });
         }
     }
+    /// Mix observable results (bytes produced, outcomes) into the run hash, so the determinism
+    /// witness covers what the library returned and not only the transport events.
+    pub fn mix(&mut self, data: &[u8]) {
+        self.hash = self.hash.rotate_left(11) ^ crate::rng::fnv64(data);
+    }
     pub fn probe(&mut self, p: &'static str) {
         if !self.probes.contains(&p) {
             self.probes.push(p);
